@@ -173,6 +173,13 @@ def name2(ctx) -> List[Ob]:
                         continue
                     if isinstance(dv, ast.Call) and A.unparse(dv.func) == "self.kinds.get" and dv.args and A.unparse(dv.args[0]) == kind_param:
                         continue
+                    if isinstance(dv, ast.IfExp):
+                        # self.kinds[kind] if kind in self.kinds else 0   (or the negated spelling)
+                        tt = A.unparse(dv.test)
+                        pos, neg = f"{kind_param} in self.kinds", f"{kind_param} not in self.kinds"
+                        cur, zero = (dv.body, dv.orelse) if tt == pos else ((dv.orelse, dv.body) if tt == neg else (None, None))
+                        if cur is not None and isinstance(cur, ast.Subscript) and A.unparse(cur.value) == "self.kinds" and A.unparse(cur.slice) == kind_param and isinstance(zero, ast.Constant) and zero.value == 0:
+                            continue
                     if isinstance(dv, ast.Constant) and dv.value == 0:
                         # must be on the `kind not in self.kinds` side
                         from .ctrl import _guard_conditions
